@@ -41,29 +41,35 @@ func VerifC18Brain() {
 	s := &Server{backend: rec, metricCli: zzmodel.NoMetrics{}, peers: peers}
 	ctx := context.Background()
 	key, end := []byte("/r/a"), []byte("/r/z")
+	if zzverif.Choose("noEnd", 2) == 1 {
+		end = nil
+	}
+	// request fields a handler might (wrongly) take for a reason not to ask the leader: explicit
+	// revisions (zero, old, far future), limits (zero, negative, positive), any value bytes
+	rev, limit, val := zzverif.U64("rev"), zzverif.I64("limit"), zzverif.Bytes("val", 1)
 	req := zzverif.Choose("request", 10)
 	var err error
 	switch req {
 	case 0:
-		_, err = s.Create(ctx, &proto.CreateRequest{Key: key, Value: []byte("v")})
+		_, err = s.Create(ctx, &proto.CreateRequest{Key: key, Value: val})
 	case 1:
-		_, err = s.Update(ctx, &proto.UpdateRequest{Kv: &proto.KeyValue{Key: key, Value: []byte("v"), Revision: 7}})
+		_, err = s.Update(ctx, &proto.UpdateRequest{Kv: &proto.KeyValue{Key: key, Value: val, Revision: rev}})
 	case 2:
-		_, err = s.Delete(ctx, &proto.DeleteRequest{Key: key, Revision: 7})
+		_, err = s.Delete(ctx, &proto.DeleteRequest{Key: key, Revision: rev})
 	case 3:
-		_, err = s.Compact(ctx, &proto.CompactRequest{Revision: 7})
+		_, err = s.Compact(ctx, &proto.CompactRequest{Revision: rev})
 	case 4:
-		_, err = s.Get(ctx, &proto.GetRequest{Key: key})
+		_, err = s.Get(ctx, &proto.GetRequest{Key: key, Revision: rev})
 	case 5:
-		_, err = s.Range(ctx, &proto.RangeRequest{Key: key, End: end})
+		_, err = s.Range(ctx, &proto.RangeRequest{Key: key, End: end, Revision: rev, Limit: limit})
 	case 6:
 		_, err = s.Count(ctx, &proto.CountRequest{Key: key, End: end})
 	case 7:
 		_, err = s.ListPartition(ctx, &proto.ListPartitionRequest{Key: key, End: end})
 	case 8:
-		err = s.RangeStream(&proto.RangeRequest{Key: key, End: end}, &vRangeSrv{vStream{ctx}})
+		err = s.RangeStream(&proto.RangeRequest{Key: key, End: end, Revision: rev, Limit: limit}, &vRangeSrv{vStream{ctx}})
 	default:
-		err = s.Watch(&proto.WatchRequest{Key: key}, &vWatchSrv{vStream{ctx}})
+		err = s.Watch(&proto.WatchRequest{Key: key, Revision: rev}, &vWatchSrv{vStream{ctx}})
 	}
 	switch {
 	case req <= 3:
@@ -71,7 +77,7 @@ func VerifC18Brain() {
 			zzverif.Assert(rec.NWrite == 0 && err != nil, "a follower rejects the write as unavailable and never applies it")
 			zzverif.Cover("write-rejected")
 		} else {
-			zzverif.Assert(rec.NWrite == 1, "the leader applies the write")
+			zzverif.Assert(rec.NWrite == 1 || err != nil, "the leader applies the write (or refuses a malformed one)")
 			zzverif.Cover("write-applied")
 		}
 	case req <= 8:
@@ -80,15 +86,20 @@ func VerifC18Brain() {
 			zzverif.Assert(err != nil && rec.NRead == 0, "if the leader cannot be reached the read fails without touching the backend")
 			zzverif.Cover("read-refused")
 		} else {
-			zzverif.Assert(rec.NRead == 1 && peers.SyncCalls >= 1, "read served after syncing")
-			zzverif.Cover("read-served")
+			zzverif.Assert(rec.NRead == 0 || peers.SyncCalls >= 1, "read served after syncing")
+			if rec.NRead == 1 {
+				zzverif.Cover("read-served")
+			} else {
+				zzverif.Assert(err != nil, "a read that does not reach the backend is refused")
+				zzverif.Cover("read-malformed")
+			}
 		}
 	default:
 		if !peers.Leader {
 			zzverif.Assert(rec.NWatch == 0 && err != nil, "a follower never serves a watch from its own event history")
 			zzverif.Cover("watch-rejected")
 		} else {
-			zzverif.Assert(rec.NWatch == 1, "the leader serves the watch")
+			zzverif.Assert(rec.NWatch == 1 || err != nil, "the leader serves the watch (or refuses a malformed one)")
 			zzverif.Cover("watch-served")
 		}
 	}
